@@ -362,6 +362,84 @@ func c06Checkpoint(r *core.Run, s *sim.Sim, env *menv.Env, world *lnmodel.World,
 			r.Violate("corrected-request-refused:"+t.endpoint, "after the refused mutants the valid request on the same inputs / quote did not succeed", fmt.Sprintf("%s/cp%d/%s/corrected", sig, cp, t.endpoint), s.Tail(6))
 		}
 	}
+	// forged inputs whose secret / witness is a structurally mutated NUT-10 secret / witness:
+	// they are parsed before any signature is checked
+	{
+		lk := newLockKeys(rng)
+		for _, kind := range []string{"P2PK", "HTLC"} {
+			c := lockCfg{Kind: kind, Data: pubHex(lk.Lock), NSigs: 2, Pubkeys: []string{pubHex(lk.Co[0]), pubHex(lk.Co[1])}, Locktime: 1700000000, Refund: []string{pubHex(lk.Refund[0])}, Sigflag: "SIG_ALL", Nonce: client.RandHex(rng, 16)}
+			if kind == "HTLC" {
+				c.Data = lk.Hash
+			}
+			valid := c.Secret()
+			witness := buildWitness([]byte(valid), []sigSpec{{key: lk.Lock}, {key: lk.Co[0]}}, &lk.Preimage, false)
+			smuts := jsonMutants([]byte(valid), rng, false)
+			wmuts := jsonMutants([]byte(witness), rng, false)
+			rng.Shuffle(len(smuts), func(i, j int) { smuts[i], smuts[j] = smuts[j], smuts[i] })
+			rng.Shuffle(len(wmuts), func(i, j int) { wmuts[i], wmuts[j] = wmuts[j], wmuts[i] })
+			nS, nW := pick(r, 70, 400), pick(r, 25, 150)
+			if len(smuts) > nS {
+				smuts = smuts[:nS]
+			}
+			if len(wmuts) > nW {
+				wmuts = wmuts[:nW]
+			}
+			type fm struct{ desc, secret, witness string }
+			var fms []fm
+			for _, m := range smuts {
+				if len(m.body) <= 600 {
+					fms = append(fms, fm{"secret: " + m.desc, string(m.body), witness})
+				}
+			}
+			for _, m := range wmuts {
+				fms = append(fms, fm{"witness: " + m.desc, valid, string(m.body)})
+			}
+			un := s.UnspentCoins()
+			if len(un) == 0 {
+				break
+			}
+			honest := un[0].P
+			mq := s.NewMeltQuote(5000)
+			for i, m := range fms {
+				forged := cashu.Proof{Amount: honest.Amount, Id: honest.Id, Secret: m.secret, C: honest.C, Witness: m.witness}
+				outs := client.Outputs(rng, act.Id, client.Split(honest.Amount))
+				var path string
+				var body []byte
+				if i%4 == 3 && mq != nil {
+					path = "/v1/melt/bolt11"
+					body, _ = json.Marshal(map[string]any{"quote": mq.Id, "inputs": cashu.Proofs{forged}})
+				} else {
+					path = "/v1/swap"
+					body, _ = json.Marshal(map[string]any{"inputs": cashu.Proofs{forged}, "outputs": client.BMs(outs)})
+				}
+				csig := fmt.Sprintf("%s/cp%d/nut10-%s/%s", sig, cp, kind, m.desc)
+				before, e1 := env.Snapshot()
+				res := c06Send(env, "POST", path, body, "application/json")
+				outcome := fmt.Sprint(res.status)
+				if res.panicked != "" {
+					outcome = "panic"
+				}
+				r.Eval(fmt.Sprintf("http/nut10/%s/%s/%s/%s", kind, path, m.desc, outcome), true)
+				wit := map[string]any{"endpoint": path, "mutation": m.desc, "secret": m.secret, "witness": truncStr(m.witness, 300)}
+				if res.panicked != "" {
+					r.Violate(fmt.Sprintf("panic:http:%s:nut10-%s", path, mutClass(m.desc)), fmt.Sprintf("handler of %s panicked on an input with a malformed NUT-10 %s: %s", path, m.desc, truncStr(res.panicked, 200)), csig, wit)
+				}
+				if res.hang {
+					r.Violate("hang:http:"+path, "no answer within 60 s", csig, wit)
+					return
+				}
+				after, e2 := env.Snapshot()
+				if e1 == nil && e2 == nil {
+					if d := c06Norm(before, world).Diff(c06Norm(after, world)); d != "" && res.status != 200 {
+						r.Violate("state-changed-by-refused-request:"+path+":nut10", truncStr(d, 300), csig, wit)
+					}
+				}
+				if res.status == 200 {
+					r.Violate("forged-input-accepted:"+path, "a proof with somebody else's C and a NUT-10 secret was accepted", csig, wit)
+				}
+			}
+		}
+	}
 	// GET endpoints with garbage path parameters
 	for _, p := range []string{"/v1/mint/quote/bolt11/", "/v1/mint/quote/bolt11/%00", "/v1/mint/quote/bolt11/" + strings.Repeat("a", 70000), "/v1/melt/quote/bolt11/nope", "/v1/keys/zz", "/v1/keys/00", "/v1/keys/" + strings.Repeat("0", 16),
 		"/v1/mint/quote/bolt12/x", "/v1/melt/quote/bolt12/x", "/v1/info", "/v1/keysets", "/v1/keys", "/v1/mint/quote/bolt11/'%20OR%201=1--"} {
